@@ -1,7 +1,7 @@
 (* C05 — records stay in normal form: formal attributes single-valued, typed,
    normalised.  Statements only; proofs in theories/RecordProofs.v. *)
 From Coq Require Import String List ZArith.
-From Prov Require Import Str Sexp Tables Nsm NsmProofs Values Record RecordProofs IsoProofs TimeProofs IdemProofs World Interp InterpProofs ReaddProofs GoodProofs.
+From Prov Require Import Str Sexp Tables Nsm NsmProofs Values Record RecordProofs SingleProofs IsoProofs TimeProofs IdemProofs World Interp InterpProofs ReaddProofs GoodProofs.
 Import ListNotations.
 Open Scope string_scope.
 
@@ -157,12 +157,41 @@ Example C05_refusal_computes :
           ex_rec EProv.
 Proof. vm_compute. reflexivity. Qed.
 
-(* the open finding C05-F1 is a counterexample in the model too: naming
-   prov:collection as a QualifiedName switches the guard off *)
-Lemma C05_F1_refuted :
-  exists r', add_attributes ex_ctx nsm_init
+(* finding C05-F1, as repaired in /repo (the exemption of the membership compatibility path covers prov:entity only):
+   the call that used to store a second prov:collection value is refused, the record is left as it was *)
+Example C05_F1_repaired :
+  add_attributes ex_ctx nsm_init
      (mkRec "Membership" None [(prov_qn "collection", [VQn (mkQn (mkNs "ex" "http://e/") "c")])])
-     [(NQn (prov_qn "collection"), AQn (mkQn (mkNs "ex" "http://e/") "c2"))] = ADone
-       (match add_namespace nsm_init (mkNs "ex" "http://e/") with Some (m, _) => m | None => nsm_init end) r'
-   /\ length (attr_get (prov_qn "collection") (rattrs r')) = 2.
-Proof. eexists. split; vm_compute; reflexivity. Qed.
+     [(NQn (prov_qn "collection"), AQn (mkQn (mkNs "ex" "http://e/") "c2"))]
+  = AFail (match add_namespace nsm_init (mkNs "ex" "http://e/") with Some (m, _) => m | None => nsm_init end)
+          (mkRec "Membership" None [(prov_qn "collection", [VQn (mkQn (mkNs "ex" "http://e/") "c")])]) EProv.
+Proof. vm_compute. reflexivity. Qed.
+
+(* with the repair the premise "the call does not name prov:collection" of the theorems above is gone: whatever the
+   call names and however it ends, every formal attribute other than prov:entity holds at most one value, of the kind it
+   demands, and every value under prov:entity is a qualified name *)
+Theorem C05_single_valued_any_call : forall c m r l,
+  NormalE r ->
+  match add_attributes c m r l with
+  | ADone _ r' => NormalE r'
+  | AFail _ r' _ => NormalE r'
+  | AOOD => True
+  end.
+Proof. exact add_attributes_normalE. Qed.
+Print Assumptions C05_single_valued_any_call.
+
+Theorem C05_constructed_single_valued : forall c m k i l m' r, new_prec c m k i l = Done m' r -> NormalE r.
+Proof. exact new_prec_normalE. Qed.
+Print Assumptions C05_constructed_single_valued.
+
+(* a second, different value of a formal attribute other than prov:entity is refused with ProvException in any call —
+   also one that names prov:collection — and the record is as before *)
+Theorem C05_second_value_refused_any_call : forall c ic m d n a rest attr v m1 m2 e0 tl,
+  a <> ANone ->
+  resolve_o c m n = Done m1 (Some attr) -> is_formal_attr attr = true -> is_prov_name "entity" attr = false ->
+  (if is_qname_attr attr then qn_value c m1 a
+   else if is_time_attr attr then time_value m1 a else auto_conv c m1 a) = Done m2 (Some v) ->
+  attr_get attr d = e0 :: tl -> py_eq v e0 = false ->
+  add_attrs_loop c ic m d ((n, a) :: rest) = (m2, d, LFail EProv).
+Proof. exact second_value_any_call. Qed.
+Print Assumptions C05_second_value_refused_any_call.
